@@ -205,14 +205,16 @@ def run_grid(case, drv) -> Outcome:
     if viol is None and case['grid_kind'] == 'identity' and (case['mode'] == 'nearest' or True):
         if not torch.allclose(y[0], x[0].to(y.dtype), rtol=0, atol=1e-9):
             viol = {'signature': 'grid:identity', 'what': f'{cfg}: sampling at the pixel centres does not return the input (max dev {float((y[0] - x[0]).abs().max()):.2e})'}
-    # model correspondence: zeros padding, bilinear/nearest
-    if viol is None and case['padding'] == 'zeros':
+    # model correspondence: bilinear/nearest with every padding mode (coordinate maps of torch: clip for border, reflect + clip for
+    # reflection) - for grid points outside [-1, 1] this is also the property-level oracle: the interpolated value at the grid location
+    if viol is None:
         for b in range(gb):
             for c in range(chans):
                 img = (x.real if cplx else x)[0, c]
                 ptl = grid[b].reshape(-1, dim)
                 # nearest with exact ties is implementation defined in float: skip points that unnormalise to .5
                 m = drv.call({'op': 'interp', 'align_corners': case['align'], 'nearest': case['mode'] == 'nearest', 'shape': ishape,
+                              'padding': {'zeros': 0, 'border': 1, 'reflection': 2}[case['padding']],
                               'img': [frac_str(float(v)) for v in img.flatten()], 'points': [[frac_str(float(v)) for v in p] for p in ptl]})
                 mv = torch.tensor([float(parse_scal(s)[0]) for s in m['out']], dtype=torch.float64).reshape(oshape)
                 got = (y.real if cplx else y)[b, c]
@@ -223,6 +225,8 @@ def run_grid(case, drv) -> Outcome:
                 if bool(bad.any()):
                     i = bad.nonzero()[0].tolist()
                     corr = corr or f'{cfg}: value at output index {i} (batch {b}, channel {c}): impl {float(got[tuple(i)])} model {float(mv[tuple(i)])}, grid point {grid[b][tuple(i)].tolist()}'
+                    viol = viol or {'signature': f'grid:value:{case["padding"]}', 'what': f'{cfg}: output {i} is {float(got[tuple(i)])}, the {case["mode"]} interpolation of the input at '
+                                    f'grid point {grid[b][tuple(i)].tolist()} with {case["padding"]} padding is {float(mv[tuple(i)])}'}
     return Outcome(key=('grid', dim, case['mode'], case['align'], case['padding'], layout, cplx, case['grid_kind'], tuple(ishape), tuple(oshape)), corr=corr, viol=viol,
                    branches=[f'{dim}D', case['mode'], f'align:{case["align"]}', f'pad:{case["padding"]}', layout, case['grid_kind']], sample=case)
 
